@@ -110,6 +110,11 @@ func workerLeak(args []string) {
 			time.Sleep(600 * time.Millisecond)
 			after, where = libGoroutines()
 		}
+		if after > before {
+			// a busy machine delays goroutines that are about to end; a stranded one is still there after seconds
+			time.Sleep(3 * time.Second)
+			after, where = libGoroutines()
+		}
 		fmt.Fprintf(out, "%s\t%s\t%d\t%d\t%s\n", f[0], status, before, after, where)
 		out.Flush()
 	}
